@@ -76,6 +76,9 @@ def terms(W, inter):
         T["kv"] = (1, lambda: R(k) * R(v))
         T["list_v"] = (1, lambda: ufl.as_vector([R(f), R(g)])[i] * ufl.grad(R(v))[i])
         if inter:
+            # restrictions wrapping sums of mixed arity: the argument-free part must be dropped INSIDE the restriction
+            T["restr_affine"] = (12, lambda: (u - g)("+") * v("+"))
+            T["jump_affine"] = (12, lambda: ufl.jump(u - f * g) * ufl.avg(v))
             T["jump"] = (2, lambda: ufl.jump(u) * ufl.jump(v))
             T["avg_flux"] = (2, lambda: ufl.dot(ufl.avg(ufl.grad(u)), n("+")) * ufl.jump(v))
     else:
